@@ -31,7 +31,7 @@ def may_suspend(nodes):
 class FlowMixin:
     # ================================================================== loops
     def loop_label(self, st, stmt, kind):
-        return "%s#%d" % (kind, self.rel_line(st, stmt))
+        return "%s#%d" % (kind, self.rel_line(st, getattr(stmt, "_comp_of", stmt)))
 
     def loop_invs(self, st, label):
         fn = st.frames[-1].func
@@ -617,6 +617,7 @@ class FlowMixin:
         e = fresh("sig", RefS)
         s1.assume(e != NULL)
         s1.assume(subclass(cls_of(e), cls_const("Interrupt")))
+        s1.assume(self.kernel_signal_class(e))
         s1.assume(z3.Not(self.is_new_obj_after(s1, e)))
         sig = Val(REF("Interrupt"), e)
         s1.assume(self.eval_clause("sig.scheduled and not sig._revoked and sig.target is me and loop.activity is me and loop.time == sig.due",
